@@ -143,7 +143,9 @@ def indexTemplateArgDecl (r : Rec) (n : PTree) : IxM Unit := do
   else
     panic "template arg decl outside of record or multiclass"
   if let some value := Ast.templateArgDeclValue n then
-    let _ ← r.value value
+    if let some valueTyp ← r.value value then
+      if !(← canBeCastedTo valueTyp typ) then
+        error (nodeRange value) s!"template argument '{name}' of type '{typ}' is incompatible with type '{valueTyp}'"
 
 /-- `impl Indexable for ast::TemplateArgList` -/
 def indexTemplateArgList (r : Rec) (n : PTree) : IxM Unit := do
@@ -292,7 +294,11 @@ def indexFieldLet (r : Rec) (n : PTree) : IxM Unit := do
   let some nameNode := Ast.fieldLetName n | return
   let some (name, referenceLoc) ← utilsIdentifier nameNode | return
   let some recordId ← currentRecordId | panic "field let outside of record"
-  let some fieldId ← withSM (fun sm => sm.recordFindField recordId name) | return
+  let some fieldId ← withSM (fun sm => sm.recordFindField recordId name)
+    | do error (referenceLoc.start, referenceLoc.stop) s!"field not found: {name}"
+         if let some value := Ast.fieldLetValue n then
+           let _ ← r.value value
+         return
   let fieldTyp ← withSM fun sm => (sm.recordField fieldId).typ
   let newFieldId ← addRecordField { name := name, typ := fieldTyp, parent := recordId, defineLoc := referenceLoc }
   recordMut recordId fun rec => { rec with nameToRecordField := indexMapInsert rec.nameToRecordField name newFieldId }
@@ -337,20 +343,30 @@ def indexClass (r : Rec) (n : PTree) : IxM Unit := do
   scopesPop
 
 /-- `impl Indexable for ast::Def` -/
+def sameFileDefset : IxM (Option Nat) := do
+  -- `current_defset_id().filter(|id| defset(id).define_loc.file == current_file_id())`
+  let some defsetId ← currentDefsetId | return none
+  let file ← currentFileId
+  let dsFile ← withSM fun sm => (sm.defset defsetId).defineLoc.file
+  return if dsFile == file then some defsetId else none
+
 def indexDef (r : Rec) (n : PTree) : IxM Unit := do
-  let defsetId ← currentDefsetId
+  let defsetId ← sameFileDefset
   let mut defId := 0
   match Ast.defName n with
   | some nameValue =>
     let some (name, defineLoc) ← indexNameValue nameValue | return
-    defId ← addRecord { name := name, kind := .def_, defineLoc := defineLoc } defsetId.isNone
+    if (← currentMulticlassId).isSome then
+      defId ← addMulticlassDef { name := name, kind := .def_, defineLoc := defineLoc }
+    else
+      defId ← addRecord { name := name, kind := .def_, defineLoc := defineLoc } defsetId.isNone
+    if let some defsetId := defsetId then
+      let d := defId
+      defsetMut defsetId fun ds => { ds with defList := ds.defList.push d }
   | none =>
     let name ← nextAnonymousDefName
     let file ← currentFileId
     defId ← addAnonymousDef { name := name, kind := .def_, defineLoc := ⟨file, n.start, n.stop⟩ }
-  if let some defsetId := defsetId then
-    let d := defId
-    defsetMut defsetId fun ds => { ds with defList := ds.defList.push d }
   scopesPush (.record defId)
   let some body := Ast.defRecordBody n | return
   indexRecordBody r body
@@ -358,7 +374,7 @@ def indexDef (r : Rec) (n : PTree) : IxM Unit := do
 
 /-- `impl Indexable for ast::Defm` -/
 def indexDefm (r : Rec) (n : PTree) : IxM Unit := do
-  let defsetId ← currentDefsetId
+  let defsetId ← sameFileDefset
   let mut defmId := 0
   match Ast.defmName n with
   | some nameValue =>
@@ -381,9 +397,10 @@ def indexDefset (r : Rec) (n : PTree) : IxM Unit := do
   let some typ ← r.typ typNode | return
   let defsetId ← addDefset { name := name, typ := typ, defineLoc := defineLoc }
   scopesPush (.defset defsetId)
-  let some statementList := Ast.defsetStatementList n | return
-  r.statementList statementList
+  if let some statementList := Ast.defsetStatementList n then
+    r.statementList statementList
   scopesPop
+  registerDefsetName defsetId
 
 /-- `impl Indexable for ast::MultiClass` -/
 def indexMultiClass (r : Rec) (n : PTree) : IxM Unit := do
